@@ -113,7 +113,7 @@ Reg r10({"hbprod", "C10", gen_hbprod, [](const Plan &p, Cov &c, bool vb) { HbPro
 // C11
 struct HbConsRun : NodeEnv {
     struct Ent { uint8_t node = 0; uint16_t time = 0; bool active = false; uint64_t deadline = 0; uint32_t events = 0; int last = 0; };
-    std::vector<Ent> ent; int m = M_PREOP; int nEnt = 1;
+    std::vector<Ent> ent; int m = M_PREOP; int nEnt = 1; bool allowBoot = false;
     HbConsRun(const Plan &p, Cov &c, bool vb) : NodeEnv(p, c, vb) {}
     uint32_t tk(uint32_t ms) { return (uint32_t)((uint64_t)ms * freq / 1000); }
     int scriptEntry = -1, scriptReal = -1; uint8_t scriptNode = 0;   // application script for CONmtHbConsEvent (model side / real side)
@@ -134,7 +134,7 @@ struct HbConsRun : NodeEnv {
     // events and change callbacks of one operation against the model
     void checkCallbacks(size_t mark, const std::vector<std::pair<uint64_t, uint8_t>> &expEvents, const std::vector<std::pair<uint8_t, int>> &expChanges, const char *what) {
         std::vector<std::pair<uint64_t, uint8_t>> gotE; std::vector<std::pair<uint8_t, int>> gotC;
-        for (size_t i = mark; i < w.evs.size(); i++) { const Ev &e = w.evs[i]; if (e.kind == EV_HBEVENT) gotE.push_back({e.tick, (uint8_t)e.a}); else if (e.kind == EV_HBCHANGE) gotC.push_back({(uint8_t)e.a, (int)e.b}); else if (e.kind == EV_TX && e.f.id != 0x581) fail("hbcons/tx", "unexpected transmission: " + e.f.str()); }
+        for (size_t i = mark; i < w.evs.size(); i++) { const Ev &e = w.evs[i]; if (e.kind == EV_HBEVENT) gotE.push_back({e.tick, (uint8_t)e.a}); else if (e.kind == EV_HBCHANGE) gotC.push_back({(uint8_t)e.a, (int)e.b}); else if (e.kind == EV_TX && e.f.id != 0x581 && !(allowBoot && e.f.id == 0x700u + nodeId)) fail("hbcons/tx", "unexpected transmission: " + e.f.str()); }
         auto se = expEvents; std::sort(se.begin(), se.end()); std::sort(gotE.begin(), gotE.end());
         if (gotE != se) {
             size_t i = 0; while (i < gotE.size() && i < se.size() && gotE[i] == se[i]) i++; char b[256];
@@ -179,9 +179,13 @@ struct HbConsRun : NodeEnv {
         else if (k == "events") { uint8_t node = (uint8_t)o.arg(0); Ent *e = configured(node); w.cur = 0; int16_t r = CONmtGetHbEvents(&N()->Nmt, node); int exp = e ? (int)e->events : -1; if (r != exp) fail("hbcons/event-counter", "CONmtGetHbEvents(" + std::to_string(node) + ") = " + std::to_string(r) + ", model " + std::to_string(exp)); if (e) { if (e->events) cov.hit("counter-read-nonzero"); e->events = 0; } }
         else if (k == "last") { uint8_t node = (uint8_t)o.arg(0); Ent *e = configured(node); w.cur = 0; int r = (int)CONmtLastHbState(&N()->Nmt, node); int exp = e ? e->last : 0; if (r != exp) fail("hbcons/last-state", "CONmtLastHbState(" + std::to_string(node) + ") = " + std::to_string(r) + ", model " + std::to_string(exp)); }
         else if (k == "readback") { if (m == M_STOP) return; int n = (int)(o.arg(0) % nEnt); uint32_t val = 0; uint32_t ab = sdoRead(0x1016, (uint8_t)(n + 1), val); uint32_t ex = (uint32_t)ent[(size_t)n].node << 16 | ent[(size_t)n].time; if (ab != 0 || val != ex) fail("hbcons/readback", "1016h:" + std::to_string(n + 1) + " reads " + hex(val) + " (abort " + hex(ab) + "), model " + hex(ex)); }
-        else if (k == "nmt") { uint8_t cs = (uint8_t)o.arg(0); deliver(Frame(0, 2, {cs, 0})); if (cs == 1) m = M_OP; else if (cs == 2) m = M_STOP; else if (cs == 128) m = M_PREOP; }
+        else if (k == "nmt") { uint8_t cs = (uint8_t)o.arg(0); deliver(Frame(0, 2, {cs, 0})); if (cs == 1) m = M_OP; else if (cs == 2) m = M_STOP; else if (cs == 128) m = M_PREOP;
+            // reset communication / node: every consumer starts over from its stored (node, time): not monitoring until the first heartbeat, counter 0, no state known, no timer left behind
+            else if (cs == 129 || cs == 130) { m = M_PREOP; allowBoot = true; for (auto &e : ent) { if (e.active) { cov.hit("reset-while-monitoring"); nontrivial = true; } e.active = false; e.events = 0; e.last = 0; e.deadline = 0; } scriptEntry = -1; scriptReal = -1;
+                int used = w.tmrUsedActions(0); if (used != 0) { fail("hbcons/timer-leak", std::to_string(used) + " timer slots in use right after a reset (no heartbeat received since)"); return; } } }
         safety();
         if (v.ok) checkCallbacks(mk, ee, ec, k.c_str());
+        allowBoot = false;
     }
     Verdict run() {
         build();
@@ -212,7 +216,7 @@ Plan gen_hbcons(Rng &r, bool thorough) {
         else if (c == 16) p.ops.push_back(Op("events", {anyNode()}));
         else if (c == 17) p.ops.push_back(Op("last", {anyNode()}));
         else if (c == 18) p.ops.push_back(Op("readback", {(int64_t)r.below((uint32_t)ne)}));
-        else p.ops.push_back(Op("nmt", {r.pick<int64_t>({1, 2, 128, 128})}));
+        else p.ops.push_back(Op("nmt", {r.pick<int64_t>({1, 2, 128, 128, 129, 130})}));
     }
     return p;
 }
